@@ -521,7 +521,7 @@ fn c11_cell(rng: &mut Rng, s: &str) -> String {
 
 pub fn c11_case(ctx: &mut Ctx, rng: &mut Rng) {
     // surfaces over an alphabet with commas, quotes, spaces and multi-byte text
-    let pool: Vec<char> = vec!['a', 'b', ',', '"', ' ', 'あ', '漢', '𠮷', 'é', 'x', '\'', ';'];
+    let pool: Vec<char> = vec!['a', 'b', ',', '"', ' ', 'あ', '漢', '𠮷', 'é', 'x', '\'', ';', '#', '\\', '0', '-', '\t', '/', '*', '\u{3000}'];
     let n = 1 + rng.below(14);
     let user_side = rng.chance(0.4);
     let mut rows: Vec<LexRow> = vec![];
